@@ -181,8 +181,10 @@ class Frame:
             return {"kind": "payload", "items": v["payload"]}
         if k == "field":
             v = self.get(node[1])
-            if v.get("kind") in ("tuple", "payload", "env"):
+            if v.get("kind") in ("tuple", "payload", "env", "closure", "struct"):
                 return v["items"][node[2]]
+            if v.get("kind") == "range":       # struct Range { start, end, null_included } (field order checked against source)
+                return [v["start"], v["end"], {"kind": "bool", "v": v["null_included"]}][node[2]]
             raise Unsupported("field of " + str(v.get("kind")))
         raise Unsupported("place kind")
 
@@ -394,6 +396,8 @@ class Interp:
                 st = st.rstrip(";") if st.endswith(";") else st
                 if st == "return":
                     return fr.l.get(0, {"kind": "unit"})
+                if st.startswith(("StorageLive(", "StorageDead(", "ConstEvalCounter", "nop")):
+                    continue      # the "MIR FOR CTFE" body of a const fn keeps its storage markers
                 if st == "unreachable":
                     raise Unsupported("reached `unreachable` terminator")
                 m = re.match(r"^goto -> (bb\d+)$", st)
@@ -418,11 +422,25 @@ class Interp:
                     if nxt is None:
                         raise Unsupported("switchInt without matching target")
                     break
-                m = re.match(r"^(_\d+) = (.+?)\((.*)\) -> (?:\[return: (bb\d+)(?:, unwind[^\]]*)?\]|(bb\d+)|unwind .*)$", st)
+                m = re.match(r"^(_\d+) = (.+)\) -> (?:\[return: (bb\d+)(?:, unwind[^\]]*)?\]|(bb\d+)|unwind .*)$", st)
                 if m:
-                    res = self.call(fr, m.group(2), split_top(m.group(3)))
+                    # FUNC(ARGS: the argument list is the last balanced parenthesis group (generic
+                    # arguments of FUNC may contain parentheses themselves, e.g. tuple types)
+                    body = m.group(2)
+                    depth, k = 1, len(body) - 1
+                    while k >= 0:
+                        if body[k] == ")":
+                            depth += 1
+                        elif body[k] == "(":
+                            depth -= 1
+                            if depth == 0:
+                                break
+                        k -= 1
+                    if k < 0:
+                        raise Unsupported("call statement: " + st)
+                    res = self.call(fr, body[:k], split_top(body[k + 1:]))
                     fr.set(place_of(m.group(1)), res)
-                    nxt = m.group(4)
+                    nxt = m.group(3)
                     if nxt is None:
                         raise PanicPath("diverging call " + m.group(2))
                     break
@@ -711,19 +729,43 @@ def main():
             reported += 1
         else:
             inconclusive.append(f"{oid}: counterexample (p={pval}, tag={tag}) did not reproduce natively (passes={pass_real}, member={mem_real}): encoding wrong")
+    # ---- static part (hints/filters.rs): whole static constructor + mandatory-fold classification
+    static_nq = static_unsat = 0
+    try:
+        import c04_static
+        st = c04_static.run(fns, tier)
+        static_nq, static_unsat = st["nq"], st["nunsat"]
+        solver_s += st["solver_s"]
+        validated += st["validated"]
+        notes += st["notes"]
+        inconclusive += st["inconclusive"]
+        interp.encoded |= set(st["encoded"])
+        queries += st["queries"]
+        if len(st["violations"]) > 6:
+            notes.append(f"static part: {len(st['violations'])} obligations have natively confirmed counterexamples; the first 6 are reported")
+        for oid, line, desc in st["violations"][:6]:
+            os.makedirs(f"{VERIF}/replay", exist_ok=True)
+            path = f"{VERIF}/replay/C04-static-" + re.sub(r"[^A-Za-z0-9]+", "_", oid)[:80] + ".txt"
+            open(path, "w").write(f"{line}\n# replay: python3 /verif/c04_mir.py --replay {path}\n# {desc}\n")
+            print(f"VIOLATION property=C04 replay={path}")
+            print(f"  {desc}")
+            reported += 1
+    except (Unsupported, PanicPath) as e:
+        inconclusive.append(f"static part: encoding failed: {e}")
     for q in queries[:6]:
         samples.append(q)
     for q in queries:
         if q.get("model"):
             samples.append(q)
-    write_evidence(tier, t0, len(queries), sum(1 for q in queries if q["z3"] == "unsat" and q["cvc5"] == "unsat"), samples[:12], notes + inconclusive, sorted(interp.encoded), solver_s, validated, bool(inconclusive), reported, mir_s, mir_cmd, list_lens)
+    dyn_q = [q for q in queries if not q["id"].startswith(("S1/", "S2/"))]
+    write_evidence(tier, t0, len(dyn_q) + static_nq, sum(1 for q in dyn_q if q["z3"] == "unsat" and q["cvc5"] == "unsat") + static_unsat, samples[:14], notes + inconclusive, sorted(interp.encoded), solver_s, validated, bool(inconclusive), reported, mir_s, mir_cmd, list_lens)
     for i in inconclusive:
         print("INCONCLUSIVE:", i)
     if reported:
         return 1
     if inconclusive:
         return 2
-    print(f"C04 {tier}: {len(queries)} queries; every obligation unsat for z3 and cvc5 except {known_matched} known finding(s), outside whose region the obligation is unsat too; {validated} concrete cases agree between encoding and real code")
+    print(f"C04 {tier}: {len(dyn_q)} dynamic-hint + {static_nq} static-hint queries; every obligation unsat for z3 and cvc5 except {known_matched} known finding(s), outside whose region the obligation is unsat too; {validated} concrete cases agree between encoding and real code")
     return 0
 
 
@@ -734,12 +776,12 @@ def write_evidence(tier, t0, nq, nunsat, samples, notes, encoded, solver_s, vali
         "property_id": "C04", "tier": tier, "seed": int(os.environ.get("VERIF_SEED", "0") or 0), "level": "model_checking",
         "coverage": {
             "evaluations": nq, "distinct_nontrivial": nunsat,
-            "rule": "one evaluation = one SMT query: the MIR of one operator closure of a dynamic-hint constructor, executed symbolically (tag value, probe value, nullness flags as SMT variables, the initial candidate as an uninterpreted predicate), with the negated property asserted; decided by z3 and cross-checked by cvc5. Non-trivial = both solvers answer unsat AND the premise (filter passes, value in the initial candidate) is satisfiable.",
+            "rule": "one evaluation = one SMT query. Dynamic hints: the MIR of one operator closure of a dynamic-hint constructor, executed symbolically (tag value, probe value, nullness flags as SMT variables, the initial candidate as an uninterpreted predicate). Static hints: the MIR of candidate_from_statically_evaluated_filters (whole body and every closure) executed on one concrete list of filters (operators / argument kinds concrete, argument values and probe symbolic), or the MIR of the mandatory-fold classification on one candidate shape. The negated property is asserted; decided by z3 and cross-checked by cvc5 (both must answer unsat). Counted as non-trivial: both unsat.",
             "samples": samples or [{"note": "no query was generated"}],
             "exhaustive": False,
             "functions_encoded": encoded,
-            "bounds": f"every 64-bit integer tag and probe value (integers as a stand-in for any totally ordered scalar kind), null probe values, null tags for = and !=; one_of tags of {list(list_lens)} elements with any nulls; one filter per hint; initial candidate arbitrary",
-            "outside_claim": "the static constructor (hints/filters.rs) and the mandatory-edge classification (Kani probes do not finish, DESIGN 5 C04); non-binding filters; the end-to-end statement (pruning adapter == plain adapter); list-valued tags for operators other than one_of",
+            "bounds": f"every 64-bit integer tag / argument / probe value (integers as a stand-in for any totally ordered scalar kind), null probe values, null arguments for = and !=; one_of tags of {list(list_lens)} elements with any nulls. Dynamic: one filter per hint, initial candidate arbitrary. Static: every list of 1 filter over all 20 operators x ($variable | %tag) and every list of {'2' if tier == 'quick' else '2 and 3'} filters over 16 filter kinds (10 operators with integer semantics with $variable arguments, list arguments of {'2' if tier == 'quick' else '0..=3'} elements, two tag-argument kinds, two operators with free semantics), field nullable or not. Mandatory-fold classification: every candidate shape (Impossible, All, Single, Multiple of 0..={'2' if tier == 'quick' else '3'}, Range with each of the 9 bound-kind pairs x null_included)",
+            "outside_claim": "non-binding filters (NeighborInfo), EdgeInfo::is_mandatory for non-fold edges, which filters are handed to the constructors (vertex_info.rs), the end-to-end statement (pruning adapter == plain adapter); lists of more than 3 filters; list-valued tags for operators other than one_of",
             "solver_time_s": round(solver_s, 2), "mir_dump_s": round(mir_s, 1), "mir_cmd": mir_cmd,
             "traces_validated_against_impl": validated,
             "inconclusive": inconclusive, "notes": notes,
@@ -750,6 +792,9 @@ def write_evidence(tier, t0, nq, nunsat, samples, notes, encoded, solver_s, vali
             "callee summaries: CandidateValue::intersect is set intersection and exclude_single_value removes at most the given value (both decided for the real generic code by C06); Clone::clone, as_slice, to_vec, unwrap_or_else(Some) are identities; Range::with_start / with_end are NOT summarised but executed from their own MIR",
             "values are modelled as null or an integer in [-2^63, 2^64): the constructors only move the tag value into a bound / a set, so only order and equality matter (their laws on FieldValue are C08)",
             "ordering filters are evaluated against non-null tags (Range::with_* asserts it)",
+            "static part, modelled rather than executed: Option::and_then/expect/is_some/unwrap_or_default, itertools partition_map, Iterator fold/filter_map/flatten/collect/next/all/once, Vec is_empty/into_iter/deref, slice iter, Box::new, BTreeMap index (a variable name maps to the value attached to it), Cow/AsRef/Deref/ToOwned (transparent), FieldValue::as_vec_with/as_slice/as_u64 (value-level definitions), CandidateValue::normalize (membership-preserving, C06); executed from their own MIR: Operation::right, Argument::evaluate_statically, Range::with_start/with_end/full_non_null/start_bound and every closure of the two functions",
+            "static part: operators without integer semantics (contains, string and regex operators) and every filter against a %tag get a free Boolean as their verdict - the constructor must be sound whatever they decide",
+            "a non-nullable field never holds null (premise `nullable or p non-null`)",
         ],
         "wall_s": round(time.time() - t0, 1), "violations": violations,
     }
@@ -759,6 +804,15 @@ def write_evidence(tier, t0, nq, nunsat, samples, notes, encoded, solver_s, vali
 
 def replay(path):
     line = open(path).read().splitlines()[0]
+    if line.startswith(("S|", "M|")):
+        import c04_static
+        (res,) = c04_static.native_static([line])
+        print("real code:", res)
+        if (line[0] == "S" and res["passes"] == "true" and res["cand"] == "some" and res["member"] == "false") or \
+           (line[0] == "M" and res["mandatory"] == "true" and res["empty_passes"] == "true"):
+            print(f"VIOLATION property=C04 replay={path}")
+            return 1
+        return 0
     op, tag, p = line.split("|")
     def dec(s):
         if s == "n":
@@ -786,10 +840,17 @@ def prebuild():
         print("prebuild (native):", e)
 
 
-if __name__ == "__main__":
+def entry():
     if os.environ.get("C04_PREBUILD"):
         prebuild()
-        sys.exit(0)
+        return 0
     if "--replay" in sys.argv:
-        sys.exit(replay(sys.argv[sys.argv.index("--replay") + 1]))
-    sys.exit(main())
+        return replay(sys.argv[sys.argv.index("--replay") + 1])
+    return main()
+
+
+if __name__ == "__main__":
+    # run through the imported module so that c04_static (which imports c04_mir) shares its classes and tables
+    sys.path.insert(0, VERIF)
+    import c04_mir
+    sys.exit(c04_mir.entry())
